@@ -8,6 +8,7 @@ import (
 	"time"
 
 	"github.com/nuetzliches/hookaido/internal/config"
+	"github.com/nuetzliches/hookaido/internal/queue"
 	vrt "github.com/nuetzliches/hookaido/internal/verifrt"
 )
 
@@ -188,4 +189,53 @@ func VerifC20ActorMustEqualPrincipal() {
 	vrt.Assert("C20.actor.refused-iff-a-supplied-actor-differs-from-the-principal", (err != nil) == refuse)
 	ok := err != nil || got == want
 	vrt.Assert("C20.actor.recorded-actor-is-the-principal-or-the-equal-actor", ok)
+}
+
+// verif:harness props=C14 tier=quick native=yes weight=10
+// verif:bounds the request bodies the MCP by-filter tools forward to the Admin API (messageManageFilterPayload for route selectors, scopedMessageManageFilterPayload for application/endpoint selectors): route absent or /r, target absent or t, state absent / dead / canceled, any limit, before absent or one of two instants, preview flag: every criterion the caller named is in the forwarded body, with its value, and nothing else
+func VerifC14MCPForwardsEveryNamedCriterion() {
+	req := queue.MessageManageFilterRequest{
+		Route:       []string{"", "/r"}[vrt.Choose("route", 2)],
+		Target:      []string{"", "t"}[vrt.Choose("target", 2)],
+		State:       []queue.State{"", queue.StateDead, queue.StateCanceled}[vrt.Choose("state", 3)],
+		Limit:       vrt.Int("limit"),
+		PreviewOnly: vrt.Bool("preview"),
+	}
+	wantBefore := ""
+	switch vrt.Choose("before", 3) {
+	case 1:
+		req.Before = time.Date(2024, 5, 6, 7, 8, 9, 0, time.UTC)
+		wantBefore = "2024-05-06T07:08:09Z"
+	case 2:
+		req.Before = time.Date(2031, 1, 2, 3, 4, 5, 600, time.UTC)
+		wantBefore = "2031-01-02T03:04:05.0000006Z"
+	}
+	scoped := vrt.Bool("application-endpoint-selector")
+	var p map[string]any
+	if scoped {
+		p = scopedMessageManageFilterPayload(req)
+	} else {
+		p = messageManageFilterPayload(req, "", "")
+	}
+	str := func(k string) string {
+		s, _ := p[k].(string)
+		return s
+	}
+	has := func(k string) bool { _, ok := p[k]; return ok }
+	lim, _ := p["limit"].(int)
+	prev, _ := p["preview_only"].(bool)
+	vrt.Assert("C14.mcp.limit-and-preview-forwarded", lim == req.Limit && prev == req.PreviewOnly)
+	vrt.Assert("C14.mcp.target-criterion-forwarded", has("target") == (req.Target != "") && str("target") == req.Target)
+	vrt.Assert("C14.mcp.state-criterion-forwarded", has("state") == (req.State != "") && str("state") == string(req.State))
+	vrt.Assert("C14.mcp.before-cursor-forwarded", has("before") == (wantBefore != "") && str("before") == wantBefore)
+	if !scoped {
+		vrt.Assert("C14.mcp.route-criterion-forwarded", has("route") == (req.Route != "") && str("route") == req.Route)
+	}
+	n := 2
+	for _, k := range []string{"target", "state", "before", "route"} {
+		if has(k) {
+			n++
+		}
+	}
+	vrt.Assert("C14.mcp.nothing-else-in-the-body", len(p) == n)
 }
